@@ -54,7 +54,7 @@ def run(prop: str, tier: str, seed: int, t0: float, replay=None, no_corpus=False
         for name in dir(mod):
             if name in ALL:
                 registry[name] = getattr(mod, name)
-    for modname in ("props_tables", "props_misc", "props_gen"):
+    for modname in ("props_tables", "props_iter", "props_gen"):
         try:
             mod = __import__(modname)
         except ImportError:
